@@ -759,10 +759,15 @@ impl World {
             }
             let (reply, receive) = tokio::sync::oneshot::channel();
             let _ = sender.send(DbMessage::DataModelUpdate(MODEL.to_string(), reply)).await;
-            tokio::time::timeout(Duration::from_secs(5), receive).await.is_ok()
+            tokio::time::timeout(Duration::from_secs(3), receive).await.is_ok()
         });
-        let answered = matches!(tokio::time::timeout(Duration::from_secs(8), feeder).await, Ok(Ok(true)));
-        let alive = answered && Self::probe(&svc, 1).await;
+        let answered = matches!(tokio::time::timeout(Duration::from_secs(4), feeder).await, Ok(Ok(true)));
+        // a short probe: a wedged actor never answers, a live one answers in milliseconds
+        let alive = answered
+            && matches!(
+                tokio::time::timeout(Duration::from_secs(2), svc.query("query probedl { Probe { n } }", None)).await,
+                Ok(Ok(_))
+            );
         if !alive {
             self.flag(
                 "actor-writer-deadlock",
